@@ -13,8 +13,12 @@ import (
 	"encoding/json"
 	"flag"
 	"fmt"
+	"net/http"
+	"net/http/httptest"
 	"os"
+	"path"
 	"sort"
+	"strings"
 	"sync"
 	"sync/atomic"
 	"time"
@@ -43,6 +47,8 @@ type source struct {
 	callsOne  atomic.Int64
 	holds     *holdLog
 	churn     atomic.Bool // advance only some providers per call (forces update-map growth)
+	lag       atomic.Bool // this source is one version behind (and names another head advertisement)
+	shift     atomic.Bool // every other listing leaves provider 1 out: positions shift
 }
 
 type holdLog struct {
@@ -90,6 +96,7 @@ func mkInfo(src, pid int, t int64) *model.ProviderInfo {
 	pi := &model.ProviderInfo{
 		AddrInfo:              pcdrv.AddrInfo(pid, vtag(src, pid, t)),
 		LastAdvertisementTime: time.Unix(timeBase+t, 0).UTC().Format(time.RFC3339),
+		LastAdvertisement:     pcdrv.VersionCid(vtag(src, pid, t)), // another head advertisement for every version
 	}
 	xp := &model.ExtendedProviders{}
 	// chain level: the provider itself (skipped or not depending on its metadata), two others
@@ -214,9 +221,15 @@ func (s *source) FetchAll(ctx context.Context) ([]*model.ProviderInfo, error) {
 	n := int(s.n.Load())
 	out := make([]*model.ProviderInfo, 0, n)
 	for p := 1; p <= n; p++ {
+		if p == 1 && s.shift.Load() && call%2 == 0 {
+			continue // not listed this time (it stays cached: the time-to-live is an hour)
+		}
 		tp := t
 		if s.churn.Load() && (int64(p)+t)%3 != 0 {
 			tp = 1 // an old time: the cache keeps what it has for this provider
+		}
+		if s.lag.Load() && tp > 1 {
+			tp--
 		}
 		out = append(out, withStatus(s.info(p, tp), call))
 	}
@@ -232,12 +245,51 @@ func (s *source) Fetch(ctx context.Context, pid peer.ID) (*model.ProviderInfo, e
 	}
 	p := pcdrv.PeerIndex(pid)
 	if p >= 1 && p <= int(s.n.Load()) {
-		return withStatus(s.info(p, s.clock.Load()), 1000000+s.callsOne.Load()), nil
+		t := s.clock.Load()
+		if s.lag.Load() && t > 1 {
+			t--
+		}
+		return withStatus(s.info(p, t), 1000000+s.callsOne.Load()), nil
 	}
 	return nil, nil
 }
 
 func (s *source) String() string { return fmt.Sprintf("held-%d", s.idx) }
+
+// serve puts the source behind an HTTP server and returns pcache's own HTTP source for it
+func serve(s pcache.ProviderSource) (pcache.ProviderSource, func()) {
+	srv := httptest.NewServer(http.HandlerFunc(func(w http.ResponseWriter, r *http.Request) {
+		w.Header().Set("Content-Type", "application/json")
+		if strings.HasSuffix(r.URL.Path, "/providers") {
+			infos, err := s.FetchAll(r.Context())
+			if err != nil {
+				http.Error(w, err.Error(), http.StatusInternalServerError)
+				return
+			}
+			if infos == nil {
+				infos = []*model.ProviderInfo{}
+			}
+			json.NewEncoder(w).Encode(infos)
+			return
+		}
+		pid, err := peer.Decode(path.Base(r.URL.Path))
+		if err != nil {
+			http.Error(w, err.Error(), http.StatusBadRequest)
+			return
+		}
+		info, err := s.Fetch(r.Context(), pid)
+		if err != nil || info == nil {
+			http.Error(w, "not found", http.StatusNotFound)
+			return
+		}
+		json.NewEncoder(w).Encode(info)
+	}))
+	hs, err := pcache.NewHTTPSource(srv.URL, nil)
+	if err != nil {
+		panic(err)
+	}
+	return hs, srv.Close
+}
 
 // withStatus fills the ingest-status fields, which say nothing about the advertisement chain
 func withStatus(pi *model.ProviderInfo, call int64) *model.ProviderInfo {
@@ -297,20 +349,22 @@ type Reader struct {
 }
 
 type Scenario struct {
-	Name        string   `json:"name"`
-	HoldMs      int      `json:"hold_ms"`
-	Holds       int      `json:"holds"`
-	Readers     []Reader `json:"readers"`
-	Always      []int    `json:"always"` // providers reported at all times
-	P50us       int64    `json:"p50_us"`
-	P99us       int64    `json:"p99_us"`
-	MaxUs       int64    `json:"max_us"`
-	MinPerHold  int      `json:"min_reads_per_reader_per_hold"` // min over readers of the median over holds
-	FetchAll    int64    `json:"fetchall_calls"`
-	Fetch       int64    `json:"fetch_calls"`
-	ElapsedMs   int64    `json:"elapsed_ms"`
-	Failures    []string `json:"failures,omitempty"`
-	LenObserved []int    `json:"len_observed,omitempty"`
+	Name        string           `json:"name"`
+	HoldMs      int              `json:"hold_ms"`
+	Holds       int              `json:"holds"`
+	Readers     []Reader         `json:"readers"`
+	Always      []int            `json:"always"` // providers reported at all times
+	P50us       int64            `json:"p50_us"`
+	P99us       int64            `json:"p99_us"`
+	MaxUs       int64            `json:"max_us"`
+	MinPerHold  int              `json:"min_reads_per_reader_per_hold"` // min over readers of the median over holds
+	FetchAll    int64            `json:"fetchall_calls"`
+	Fetch       int64            `json:"fetch_calls"`
+	ElapsedMs   int64            `json:"elapsed_ms"`
+	Failures    []string         `json:"failures,omitempty"`
+	LenObserved []int            `json:"len_observed,omitempty"`
+	Notes       []string         `json:"notes,omitempty"` // what was not judged because the machine was busy
+	Probe       pcdrv.ProbeStats `json:"probe"`
 }
 
 func timeOf(pi *model.ProviderInfo) int64 {
@@ -332,18 +386,50 @@ type cfg struct {
 	misser    bool          // a goroutine looks up unknown providers in a loop
 	auto      time.Duration // refresh interval (0: none)
 	churn     bool
+	lag       bool // source 1 is one version behind
+	http      bool // both sources are read through pcache's HTTP source
+	shift     bool // source 0's listing shifts positions between calls
 	dur       time.Duration
 	nreaders  int
 }
 
 func runScenario(c cfg, rng *vlib.Rand) Scenario {
+	probe := pcdrv.StartProbe()
+	sc := runScenario1(c, rng)
+	sc.Probe = probe.Stop()
+	// real-time verdicts are only given when the scheduler probe shows the machine could
+	// have met them; otherwise they are recorded as not judged
+	var keep []string
+	for _, f := range sc.Failures {
+		timing := strings.HasPrefix(f, "wait-free:") || strings.HasPrefix(f, "setup:")
+		if timing && sc.Probe.Busy(20*time.Millisecond) {
+			sc.Notes = append(sc.Notes, "not judged (machine busy: "+sc.Probe.String()+"): "+f)
+			continue
+		}
+		keep = append(keep, f)
+	}
+	sc.Failures = keep
+	return sc
+}
+
+func runScenario1(c cfg, rng *vlib.Rand) Scenario {
 	hl := &holdLog{}
 	s0 := &source{idx: 0, holds: hl}
 	s1 := &source{idx: 1, holds: hl}
 	s0.n.Store(int32(c.nprov))
 	s1.n.Store(int32(c.nprov))
 	s0.churn.Store(c.churn)
-	opts := []pcache.Option{pcache.WithSource(s0, s1), pcache.WithTTL(time.Hour), pcache.WithRefreshInterval(c.auto)}
+	s1.lag.Store(c.lag)
+	s0.shift.Store(c.shift)
+	var p0, p1 pcache.ProviderSource = s0, s1
+	if c.http {
+		var c0, c1 func()
+		p0, c0 = serve(s0)
+		p1, c1 = serve(s1)
+		defer c0()
+		defer c1()
+	}
+	opts := []pcache.Option{pcache.WithSource(p0, p1), pcache.WithTTL(time.Hour), pcache.WithRefreshInterval(c.auto)}
 	pc, err := pcache.New(opts...) // preload: one refresh, nothing held yet
 	if err != nil {
 		panic(err)
@@ -515,6 +601,11 @@ func runScenario(c cfg, rng *vlib.Rand) Scenario {
 					rd.Latencies = append(rd.Latencies, int64(time.Since(a)))
 					if err != nil || pi == nil {
 						note(pid, -1, "Get")
+					} else if pi.AddrInfo.ID != pcdrv.Peer(pid) {
+						rd.Changed++
+						if rd.FirstChanged == "" {
+							rd.FirstChanged = fmt.Sprintf("Get(provider %d) returned the record of provider %d", pid, pcdrv.PeerIndex(pi.AddrInfo.ID))
+						}
 					} else {
 						note(pid, timeOf(pi), "Get")
 						keep(pi)
@@ -640,6 +731,7 @@ type dsrc struct {
 	listed  map[int]int64 // what FetchAll reports: provider -> advertisement time
 	known   map[int]int64 // what only Fetch knows (not listed yet)
 	lag     map[int]int   // ingest status reported for a provider (0: healthy)
+	salt    int           // makes this source's head-advertisement CIDs its own
 	gateAll chan struct{} // one-shot: the next FetchAll waits for it
 	gateOne chan struct{} // one-shot: the next Fetch waits for it
 	entered chan struct{}
@@ -650,8 +742,8 @@ func newDsrc() *dsrc {
 }
 
 // dinfo allocates a fresh record on every call
-func dinfo(pid int, t int64, lag int) *model.ProviderInfo {
-	pi := &model.ProviderInfo{AddrInfo: pcdrv.AddrInfo(pid, pid),
+func dinfo(pid int, t int64, lag int, salt int) *model.ProviderInfo {
+	pi := &model.ProviderInfo{AddrInfo: pcdrv.AddrInfo(pid, pid), LastAdvertisement: pcdrv.VersionCid(salt*100000 + int(t)*100 + pid),
 		LastAdvertisementTime: time.Unix(timeBase+t, 0).UTC().Format(time.RFC3339)}
 	if lag != 0 {
 		pi.Lag, pi.Inactive, pi.LastError = lag, true, fmt.Sprintf("sync failed (lag %d)", lag)
@@ -683,7 +775,7 @@ func (s *dsrc) FetchAll(ctx context.Context) ([]*model.ProviderInfo, error) {
 	defer s.mu.Unlock()
 	var out []*model.ProviderInfo
 	for p, t := range s.listed {
-		out = append(out, dinfo(p, t, s.lag[p]))
+		out = append(out, dinfo(p, t, s.lag[p], s.salt))
 	}
 	return out, nil
 }
@@ -701,10 +793,10 @@ func (s *dsrc) Fetch(ctx context.Context, pid peer.ID) (*model.ProviderInfo, err
 	defer s.mu.Unlock()
 	p := pcdrv.PeerIndex(pid)
 	if t, ok := s.listed[p]; ok {
-		return dinfo(p, t, s.lag[p]), nil
+		return dinfo(p, t, s.lag[p], s.salt), nil
 	}
 	if t, ok := s.known[p]; ok {
-		return dinfo(p, t, s.lag[p]), nil
+		return dinfo(p, t, s.lag[p], s.salt), nil
 	}
 	return nil, nil
 }
@@ -976,12 +1068,151 @@ func directedRecordNeverChanges(name string) Directed {
 	return d
 }
 
+// (d) a lagging source never takes a provider back in time: one source serves version 2
+// of P, another version 1 with ANOTHER head advertisement; whatever the order of lookups
+// and refreshes, no read returns an older record than an earlier read did
+func directedLaggingSource(name string, rolledBack bool) Directed {
+	d := Directed{Name: name}
+	a, b := newDsrc(), newDsrc()
+	a.salt, b.salt = 1, 2
+	a.listed[dP] = 2
+	b.listed[dP] = 1
+	if rolledBack {
+		b.listed[dP] = 2
+	}
+	pc, err := pcache.New(pcache.WithSource(a, b), pcache.WithTTL(time.Hour), pcache.WithRefreshInterval(0), pcache.WithPreload(false))
+	if err != nil {
+		panic(err)
+	}
+	best := int64(-1)
+	look := func(when string) {
+		see := func(kind string, pi *model.ProviderInfo) {
+			if pi == nil {
+				d.Failures = append(d.Failures, fmt.Sprintf("cached-provider-missing: %s %s returned no record", kind, when))
+				return
+			}
+			t := timeOf(pi)
+			if t < best {
+				d.Failures = append(d.Failures, fmt.Sprintf("went-back: %s %s returns the record of advertisement time %d after an earlier read returned time %d (a source that lags serves time 1 with another head advertisement)", kind, when, t, best))
+			}
+			if t > best {
+				best = t
+			}
+		}
+		pi, _ := pc.Get(context.Background(), pcdrv.Peer(dP))
+		see("Get", pi)
+		for _, x := range pc.List() {
+			if x.AddrInfo.ID == pcdrv.Peer(dP) {
+				see("List", x)
+			}
+		}
+	}
+	look("(first lookup: a miss asks both sources)")
+	if rolledBack {
+		b.mu.Lock()
+		b.listed[dP] = 1 // the second source is rolled back
+		b.mu.Unlock()
+	}
+	for k := 1; k <= 2; k++ {
+		if e := pc.Refresh(context.Background()); e != nil {
+			d.Failures = append(d.Failures, "setup: Refresh failed: "+e.Error())
+		}
+		look(fmt.Sprintf("after refresh %d", k))
+	}
+	return d
+}
+
+// (e) pcache's own HTTP source against a server whose listing changes between refreshes
+// (a provider leaves, positions shift, one is added, times advance): after every refresh
+// Get(p) is what the server last served for p, and no record read earlier has changed
+func directedHTTPListingShifts(name string) Directed {
+	d := Directed{Name: name}
+	src := newDsrc()
+	src.salt = 3
+	hs, closeSrv := serve(src)
+	defer closeSrv()
+	type held struct {
+		pi   *model.ProviderInfo
+		json string
+		when string
+	}
+	var helds []held
+	js := func(pi *model.ProviderInfo) string { b, _ := json.Marshal(pi); return string(b) }
+	steps := []map[int]int64{
+		{1: 1, 2: 1, 3: 1},
+		{2: 2, 3: 1},       // 1 leaves: 2 and 3 move up one position
+		{1: 3, 3: 2, 4: 1}, // 1 is back, 2 leaves, 4 is new
+		{4: 2, 3: 3, 1: 3},
+	}
+	var pc *pcache.ProviderCache
+	last := map[int]int64{} // what the server last served for each provider
+	for k, listing := range steps {
+		src.mu.Lock()
+		src.listed = listing
+		src.mu.Unlock()
+		if k == 0 {
+			var err error
+			pc, err = pcache.New(pcache.WithSource(hs), pcache.WithTTL(time.Hour), pcache.WithRefreshInterval(0))
+			if err != nil {
+				panic(err)
+			}
+		} else if e := pc.Refresh(context.Background()); e != nil {
+			d.Failures = append(d.Failures, "setup: Refresh failed: "+e.Error())
+		}
+		for p, t := range listing {
+			last[p] = t
+		}
+		when := fmt.Sprintf("after refresh %d", k+1)
+		for p, t := range last {
+			pi, _ := pc.Get(context.Background(), pcdrv.Peer(p))
+			if pi == nil {
+				d.Failures = append(d.Failures, fmt.Sprintf("cached-provider-missing: Get(provider %d) %s returned no record", p, when))
+				continue
+			}
+			if want := js(dinfo(p, t, 0, src.salt)); js(pi) != want {
+				d.Failures = append(d.Failures, fmt.Sprintf("record-not-as-served: Get(provider %d) %s returns %s; the server last served %s for it", p, when, js(pi), want))
+			}
+			helds = append(helds, held{pi, js(pi), when})
+		}
+		for _, pi := range pc.List() {
+			helds = append(helds, held{pi, js(pi), when + " (List)"})
+		}
+		for _, h := range helds {
+			if now := js(h.pi); now != h.json {
+				d.Failures = append(d.Failures, fmt.Sprintf("held-record-changed: a record read %s changed underneath the caller by %s: %s became %s", h.when, when, h.json, now))
+				break
+			}
+		}
+	}
+	return d
+}
+
 func runDirected(only string) []Directed {
 	var out []Directed
 	add := func(name string, f func() Directed) {
-		if only == "" || only == name {
-			out = append(out, f())
+		if only != "" && only != name {
+			return
 		}
+		// A verdict that depends on real time (a read slower than the bound, a call that
+		// did not return in seconds) is only given if it repeats: a read that waits for a
+		// writer is slow every time, a descheduled goroutine is not.
+		var d Directed
+		for attempt := 1; attempt <= 3; attempt++ {
+			probe := pcdrv.StartProbe()
+			d = f()
+			ps := probe.Stop()
+			timing := false
+			for _, fl := range d.Failures {
+				if strings.HasPrefix(fl, "reader-waited:") || strings.HasPrefix(fl, "hung:") || strings.HasPrefix(fl, "setup:") {
+					timing = true
+				}
+			}
+			d.Notes = append(d.Notes, fmt.Sprintf("attempt %d: %s", attempt, ps.String()))
+			if !timing {
+				break
+			}
+		}
+		out = append(out, d)
 	}
 	add("reader/interval-elapsed-fetchall-held", func() Directed {
 		return directedReaderLatency("reader/interval-elapsed-fetchall-held", true, false)
@@ -993,6 +1224,9 @@ func runDirected(only string) []Directed {
 	add("records/status-change-with-unchanged-time", func() Directed {
 		return directedRecordNeverChanges("records/status-change-with-unchanged-time")
 	})
+	add("records/lagging-source", func() Directed { return directedLaggingSource("records/lagging-source", false) })
+	add("records/source-rolled-back", func() Directed { return directedLaggingSource("records/source-rolled-back", true) })
+	add("records/http-listing-shifts", func() Directed { return directedHTTPListingShifts("records/http-listing-shifts") })
 	for k := 0; k < 3; k++ {
 		add("writers/refresh-held-misses-queue", func() Directed { return directedNoRollback("writers/refresh-held-misses-queue", false) })
 		add("writers/miss-held-refresh-and-miss-queue", func() Directed {
@@ -1023,9 +1257,10 @@ func main() {
 	}
 	for k := 0; k < rounds; k++ {
 		res = append(res,
-			runScenario(cfg{name: "refresh-with-source-call-held-open", nprov: 4, holdAll: 30 * time.Millisecond, refresher: true, dur: dur, nreaders: 6}, rng.Fork(fmt.Sprint("a", k))),
+			runScenario(cfg{name: "refresh-with-source-call-held-open", nprov: 4, holdAll: 30 * time.Millisecond, refresher: true, lag: true, dur: dur, nreaders: 6}, rng.Fork(fmt.Sprint("a", k))),
 			runScenario(cfg{name: "miss-fetch-held-open", nprov: 4, holdFetch: 25 * time.Millisecond, misser: true, dur: dur, nreaders: 6}, rng.Fork(fmt.Sprint("b", k))),
 			runScenario(cfg{name: "automatic-refresh", nprov: 4, holdAll: 8 * time.Millisecond, auto: 20 * time.Millisecond, dur: dur, nreaders: 6}, rng.Fork(fmt.Sprint("c", k))),
+			runScenario(cfg{name: "http-sources-listing-shifts", nprov: 5, refresher: true, http: true, shift: true, lag: true, dur: dur, nreaders: 6}, rng.Fork(fmt.Sprint("e", k))),
 			runScenario(cfg{name: "refreshes-rebuilding-the-main-map", nprov: 24, refresher: true, misser: true, churn: true, dur: dur, nreaders: 6}, rng.Fork(fmt.Sprint("d", k))),
 		)
 	}
